@@ -302,6 +302,16 @@ func runE2Einner(args []string) string {
 	joe := &sse.Joe{Replayer: rec}
 	prov := &endingProvider{Provider: joe, first: make(chan struct{})}
 	server := &sse.Server{Provider: prov}
+	// topic mode, from the case's seed: no OnSession (default topic) | OnSession approving without topics |
+	// OnSession choosing its own topic, on which everything is then published
+	var pubTopics []string
+	switch seed % 3 {
+	case 1:
+		server.OnSession = func(http.ResponseWriter, *http.Request) ([]string, bool) { return nil, true }
+	case 2:
+		pubTopics = []string{"news"}
+		server.OnSession = func(http.ResponseWriter, *http.Request) ([]string, bool) { return []string{"news"}, true }
+	}
 
 	var cuts atomic.Int64
 	ts := httptest.NewUnstartedServer(server)
@@ -368,7 +378,7 @@ func runE2Einner(args []string) string {
 		if n > 0 {
 			break
 		}
-		if err := server.Publish(e2eMessage(rng, autoIDs, 1000000+nwarm)); err != nil {
+		if err := server.Publish(e2eMessage(rng, autoIDs, 1000000+nwarm), pubTopics...); err != nil {
 			cleanup()
 			return "BAD publish warm-up: " + err.Error()
 		}
@@ -390,7 +400,7 @@ func runE2Einner(args []string) string {
 			defer wg.Done()
 			for i := p; i < nmsgs; i += npub {
 				time.Sleep(pauses[i])
-				if err := server.Publish(msgs[i]); err != nil {
+				if err := server.Publish(msgs[i], pubTopics...); err != nil {
 					pubErr.Store(fmt.Sprintf("publish %d: %v", i, err))
 					return
 				}
@@ -412,7 +422,7 @@ wait:
 		}
 		data := e2eSentinelData + strconv.Itoa(j)
 		sentinel.AppendData(data)
-		if err := server.Publish(sentinel); err != nil {
+		if err := server.Publish(sentinel, pubTopics...); err != nil {
 			verdict = "BAD publish sentinel: " + err.Error()
 			break
 		}
